@@ -19,7 +19,7 @@ import (
 	"github.com/hattya/go.sh/interp"
 )
 
-var c17Values = []string{"a", "a b", "a ", "y", "y ", "x", "x ", "a ;", "a |", "if", "b=1", "b=1 ", "> f", "'x'", "a  ", "y \t"}
+var c17Values = []string{"a", "a b", "a ", "y", "y ", "x", "x ", "a ;", "a |", "if", "b=1", "b=1 ", "> f", "'x'", "a  ", "y \t", "y ; y", "y ; z"}
 var c17Sigma = []string{"x", "y", "a", "'x'", "x=1", ";", "|", "if", "then", "fi", "(", ")", ">"}
 
 type c17Case struct {
@@ -187,6 +187,15 @@ func c17Run(w *W) {
 	} {
 		tables = append(tables, t)
 	}
+	// values holding several commands that are themselves aliases (an outer alias still being read while an inner
+	// chain of aliases ends): three-entry tables x → {y, z}, y → z, z → text
+	for _, x := range []string{"y ; z", "y ; y", "y | z", "z ; y ; z", "y ; x", "( y ) ; z", "y ; a ; z"} {
+		for _, y := range []string{"z", "z ", "a ; z", "b=1 z"} {
+			for _, z := range []string{"a", "a ", "x", "b=1 ", "a ;"} {
+				tables = append(tables, map[string]string{"x": x, "y": y, "z": z})
+			}
+		}
+	}
 	var strs [][]sym
 	genSyms(c17Sigma, ns, func(ss []sym) { strs = append(strs, append([]sym{}, ss...)) })
 	var strs4 [][]sym
@@ -230,7 +239,7 @@ func init() {
 	register(&check{
 		id:    "C17",
 		level: "model_checking",
-		rule: "every alias table with ≤ 2 entries (thorough: ≤ 3) over names {x y z} and the 16-value menu {a, 'a b', 'a ', y, 'y ', x, 'x ', 'a ;', 'a |', if, b=1, 'b=1 ', '> f', 'x', 'a  ' (two blanks), 'y <blank><tab>'} plus 8 fixed three-entry chain/cycle tables × every symbol string ≤ 3 (thorough: ≤ 4 for the tables of ≤ 2 entries) over {x y a 'x' x=1 ; | if then fi ( ) >}; " +
+		rule: "every alias table with ≤ 2 entries (thorough: ≤ 3) over names {x y z} and the 18-value menu {a, 'a b', 'a ', y, 'y ', x, 'x ', 'a ;', 'a |', if, b=1, 'b=1 ', '> f', 'x', 'a  ' (two blanks), 'y <blank><tab>', 'y ; y', 'y ; z'} plus 8 fixed three-entry chain/cycle tables and 140 three-entry tables whose outer value holds several commands that are aliases (x → y…z, y → z, z → text) × every symbol string ≤ 3 (thorough: ≤ 4 for the tables of ≤ 2 entries) over {x y a 'x' x=1 ; | if then fi ( ) >}; " +
 			"non-trivial = the reference replacement changes the text",
 		assume: []string{"the reference replacement (c17.go unfold) uses the grammar model to find command-name positions; the unfolded text is parsed by the real parser without aliases, so only the substitution itself is modelled",
 			"alias values containing newlines are exercised for termination only (C01)"},
